@@ -30,7 +30,19 @@
    monitor runs with; [k_eff] is the MonitorConfig.EventTypes it produced.  [k_loaded] = false:
    the harness built the MonitorConfig itself with WithEventTypes(k_types) - no watchEvent,
    no loader.  Either way the model's configuration is [effective_types] of the declaration
-   and the specification judges against the DECLARED list ([P_decl]). *)
+   and the specification judges against the DECLARED list ([P_decl]).
+
+   The window.  [k_win] = Some n ("window" cases, real monitor only): the monitor is STARTED while
+   its events are still locked, as between AddMonitor/Start and the unlock that follows the
+   binding's Synchronization; the first n deliveries of the history (the informer's replay of the
+   existing objects included) are made in that state - a fired KubeEvent is saved in eventBuf -,
+   then the harness calls Monitor.EnableKubeEventCb and records in [k_flushed] the KubeEvents the
+   callback got during that call, in order; the other deliveries follow.  The histories flap
+   (A -> B -> A -> B, cycles of three states, create / delete / re-create with the same content).
+   The model is [run_w] (lock + buffer), the specification's clause [P_win_decl].  Inside the
+   window the harness reads the informer's cache without Monitor.Snapshot() (whose
+   getCachedObjects drops the saved events while the events are locked - the Synchronization
+   snapshot, C09's window class - and is no part of this model). *)
 From Verif Require Import Common Json C08_Model C08_Spec C08_Text.
 
 (* implementation's observation of one delivery *)
@@ -58,7 +70,13 @@ Record case := mkCase {
   k_listed : list N;                   (* states that exist in the cluster when the monitor is created *)
   k_cache0 : option (list (N * N));    (* cachedObjects right after the creation: (resource id, state index) *)
   k_history : list (evtype * N * form);
-  k_obs : list iobs
+  k_obs : list iobs;
+  k_win : option N;                    (* window cases (real monitor only): Some n = the monitor is STARTED while
+                                          its events are still locked; the first n deliveries of the history (the
+                                          informer's replay included) happen before the harness calls
+                                          Monitor.EnableKubeEventCb, the others after it.  None = unlocked before the start *)
+  k_flushed : list (evtype * N)        (* the KubeEvents the callback got DURING that EnableKubeEventCb call, in
+                                          order: type, state index of the object carried *)
 }.
 
 Definition unknown_state : N := 999%N.
@@ -132,10 +150,44 @@ Definition model_start (c : case) : option cache :=
 
 Definition model_cache0 (c : case) : option (list (N * N)) := option_map (cache_view c) (model_start c).
 
+(* window cases: the model of the informer with its lock and its buffer ([run_w]) runs the
+   operations  deliveries 1..n, unlock, deliveries n+1..  from the state the creation left
+   (cache filled, events locked, nothing saved) *)
+Definition win_n (c : case) : nat := match k_win c with Some n => N.to_nat n | None => 0 end.
+
+Definition model_wrun (c : case) (c0 : cache) : list (wstate * list event) :=
+  run_w (jq_of c) (config_of c) (mkW c0 false [])
+        (window_ops (firstn (win_n c) (steps_of c)) (skipn (win_n c) (steps_of c))).
+
+(* one operation of the window model as (cache, event the callback got at this delivery) *)
+Definition w_result (r : wstate * list event) : cache * option event := (w_cache (fst r), hd_error (snd r)).
+
 Definition model_obs (c : case) : list iobs :=
   match model_start c with
-  | Some c0 => zip_obs c (steps_of c) (run_d (jq_of c) (config_of c) c0 (steps_of c))
+  | Some c0 =>
+      match k_win c with
+      | None => zip_obs c (steps_of c) (run_d (jq_of c) (config_of c) c0 (steps_of c))
+      | Some _ =>
+          let rs := model_wrun c c0 in
+          zip_obs c (steps_of c) (map w_result (firstn (win_n c) rs ++ skipn (S (win_n c)) rs))
+      end
   | None => []
+  end.
+
+(* what the unlock hands to the callback *)
+Definition model_flushed (c : case) : list (evtype * N) :=
+  match model_start c, k_win c with
+  | Some c0, Some _ =>
+      map (fun e => (ev_type e, idx_of c (e_obj (ev_entry e))))
+          (snd (nth (win_n c) (model_wrun c c0) (mkW [] true [], [])))
+  | _, _ => []
+  end.
+
+(* a window case is a case of the real monitor and its unlock lies inside the history *)
+Definition win_ok (c : case) : bool :=
+  match k_win c with
+  | Some n => k_real c && Nat.leb (length (k_listed c)) (N.to_nat n) && Nat.leb (N.to_nat n) (length (k_history c))
+  | None => match k_flushed c with [] => true | _ => false end
   end.
 
 Definition ojson_eqb : option json -> option json -> bool := option_eqb json_eqb.
@@ -188,7 +240,8 @@ Definition values_ok (c : case) : bool :=
 Definition agrees (c : case) : bool :=
   cache0_eqb (model_cache0 c) (k_cache0 c)
   && list_eqb iobs_eqb (model_obs c) (k_obs c) && answers_canonical c && replay_ok c && eff_ok c
-  && values_ok c.
+  && values_ok c
+  && list_eqb (pair_eqb evtype_eqb N.eqb) (model_flushed c) (k_flushed c) && win_ok c.
 
 Definition mismatches (cs : list case) : list N := indices_where (fun c => negb (agrees c)) cs.
 
@@ -226,13 +279,35 @@ Definition fr_case_ok (c : case) : bool :=
    object fires iff Modified is in the declared list and the projection - /usr/bin/jq's outputs,
    compared STRUCTURALLY as JSON values - differs from the last one known *)
 Definition values_case_ok (c : case) : bool :=
+  match k_win c with
+  | None =>
   modified_values_ok (jq_of c) (declared_types (decl_of c)) (k_filter c)
                      (known_of_list (jq_of c) (k_filter c) (listed_of c)) (changes_of c)
-                     (map (spec_obs c) (k_obs c)).
+                     (map (spec_obs c) (k_obs c))
+  | Some _ =>
+  (* window cases: the clause speaks of the triggers AT the deliveries; it applies after the unlock *)
+  modified_values_ok (jq_of c) (declared_types (decl_of c)) (k_filter c)
+                     (k_after (jq_of c) (k_filter c) (known_of_list (jq_of c) (k_filter c) (listed_of c))
+                              (firstn (win_n c) (changes_of c)))
+                     (skipn (win_n c) (changes_of c))
+                     (skipn (win_n c) (map (spec_obs c) (k_obs c)))
+  end.
+
+(* the triggers handed over by the unlock as the specification speaks of them *)
+Definition flushed_steps (c : case) : list step :=
+  map (fun p => let s := state_at c (snd p) in (fst p, fst s, snd s)) (k_flushed c).
 
 Definition P_case (c : case) : bool :=
-  P_decl (jq_of c) (decl_of c) (k_filter c) (listed_of c) (changes_of c)
-         (map (spec_obs c) (k_obs c))
+  match k_win c with
+  | None =>
+      P_decl (jq_of c) (decl_of c) (k_filter c) (listed_of c) (changes_of c)
+             (map (spec_obs c) (k_obs c))
+  | Some _ =>
+      P_win_decl (jq_of c) (decl_of c) (k_filter c) (listed_of c)
+                 (firstn (win_n c) (changes_of c)) (firstn (win_n c) (map (spec_obs c) (k_obs c)))
+                 (flushed_steps c)
+                 (skipn (win_n c) (changes_of c)) (skipn (win_n c) (map (spec_obs c) (k_obs c)))
+  end
   && fr_case_ok c && values_case_ok c.
 
 Definition spec_violations (cs : list case) : list N := indices_where (fun c => negb (P_case c)) cs.
